@@ -110,7 +110,7 @@ def add_synthetic_streams(env, ctx, res) -> None:
     # second synthetic stream: structural variants of the same media that no fixture has -
     #   video: irregular durations AND no tfdt boxes AND fragments numbered from 5
     #   audio: explicit tfhd.base_data_offset (absolute position in the stored file)
-    durs2 = [3750, 3747, 3755, 3750, 3752, 3749, 3750, 3751, 3748, 3753]
+    durs2 = [3300, 3747, 3755, 3750, 3752, 3749, 3750, 3751, 3748, 3753]
     video2 = restructure(retime(src, 90000, durs2), first_sequence=5, drop_tfdt=True)
     audio2 = restructure((FIXTURES / 'bbb' / 'bbb_a1.mp4').read_bytes(), explicit_base=True)
     for data in (video2, audio2):
@@ -158,10 +158,56 @@ def add_structural_streams(env, ctx, res) -> None:
             for seg, st in zip(rep['segments'][1:], sf.segments):
                 assert st.first_box == 'styp', st.first_box
                 seg['pos'], seg['size'] = st.start, st.end - st.start
+            # (the fixture ends with an empty styp+sidx pair: it stays with the last segment)
+            rep['segments'][-1]['size'] = len(files[mf.name]) - rep['segments'][-1]['pos']
             mf.rep = rep
         env.models.db.session.commit()
         env.models.db.session.remove()
     res.count('synthetic.streams')
+
+
+def retrack(buf: bytes, new_id: int) -> bytes:
+    """The same single-track file with another track id (tkhd, trex, every tfhd, sidx reference_ID)."""
+    out = bytearray(buf)
+    root = ib.parse_file(buf)
+    for b in root.walk():
+        if b.type == b'tkhd':
+            v, _, p = ib.fullbox(buf, b)
+            struct.pack_into('>I', out, p + (16 if v == 1 else 8), new_id)
+        elif b.type in (b'trex', b'tfhd', b'sidx'):
+            _, _, p = ib.fullbox(buf, b)
+            struct.pack_into('>I', out, p, new_id)
+    return bytes(out)
+
+
+def add_multitrack_audio_stream(env, res=None, directory: str = 'mta') -> int:
+    """A stream with two AAC audio tracks of two files each whose bitrates interleave
+    (track 2: 98k and 200k, track 3: 150k and 260k; the query that lists the audio files of a stream
+    orders them by bitrate, not by track). The bitrates are the stored ones (MediaFile.bitrate and the
+    stored Representation), as after an upload of differently encoded files; the media is bbb_a1."""
+    from dlv.appenv import FIXTURES
+    import copy
+    fx = FIXTURES / 'bbb'
+    a1 = (fx / 'bbb_a1.mp4').read_bytes()
+    a3 = retrack(a1, 3)
+    assert ib.index_file(a3).track_id == 3
+    files = {'mta_v1': (fx / 'bbb_v7.mp4').read_bytes(), 'mta_a1': a1, 'mta_a2': a3, 'mta_a3': a1, 'mta_a4': a3}
+    spk = env.add_stream(directory, title='Two audio tracks, interleaved bitrates', files=files)
+    rates = {'mta_a1': 98_000, 'mta_a2': 150_000, 'mta_a3': 200_000, 'mta_a4': 260_000}
+    with env.app.app_context():
+        stream = env.models.Stream.get(pk=spk)
+        for mf in stream.media_files:
+            if mf.name in rates:
+                rep = copy.deepcopy(dict(mf.rep))
+                rep['bitrate'] = rates[mf.name]
+                mf.rep = rep
+                mf.bitrate = rates[mf.name]
+                assert mf.track_id == (2 if mf.name in ('mta_a1', 'mta_a3') else 3), (mf.name, mf.track_id)
+        env.models.db.session.commit()
+        env.models.db.session.remove()
+    if res is not None:
+        res.count('synthetic.streams')
+    return spk
 
 
 def _patch_sizes(m: bytearray, chain: list, delta: int) -> None:
